@@ -437,6 +437,10 @@ def run(ctx: RuleContext, p: Program) -> None:
     ctx.try_rule(rule_view_snapshot, p, 'VIEW-SNAPSHOT')
     ctx.try_rule(rule_cache_dep, p, 'CACHE-DEP')
     ctx.try_rule(rule_map_first, p, 'MAP-FIRST')
+    from . import idxspace
+    ctx.try_rule(idxspace.rule_idx_space, p, 'IDX-SPACE')
+    from . import round4
+    ctx.try_rule(round4.rule_memo, p, 'MEMO')
     from . import presence
     ctx.try_rule(presence.rule_presence_truth, p, 'PRESENCE-TRUTH')
     ctx.not_decided += ['Python list semantics for every index / slice of each view', 'ordered-dict / first-match semantics of '
@@ -657,7 +661,9 @@ def rule_cache_dep(ctx: RuleContext, p: Program, rid: str) -> None:
             h = p.resolve_expr(st.module, drops[0].func)
             if isinstance(h, FuncInfo):
                 helper_ok = any(isinstance(x, ast.Call) and isinstance(x.func, ast.Attribute) and x.func.attr == 'pop' and '__dict__' in norm(x.func.value)
-                                for x in ast.walk(h.node)) and 'cached_custom_property' in norm(h.node)
+                                for x in ast.walk(h.node)) and 'cached_custom_property' in norm(h.node) and (
+                    # cached views are declared on base classes too (generated base, hand-written leaf): the whole MRO must be visited
+                    '__mro__' in norm(h.node) or 'getmro' in norm(h.node) or 'dir(' in norm(h.node))
         ctx.check(bool(drops) and helper_ok, rid, f'{c.module.name.split(".", 1)[1]}:{c.name}.__set__', 'rebinds the memoised wrapper',
                   f'{c.name}.__set__ replaces the wrapper memoised for the instance (`{norm(rebinds[0])[:70]}`) but keeps the value views cached on that '
                   f'instance (tags, links, currencies, postings, meta, custom values ...): they stay bound to the old wrapper, so after '
